@@ -8,6 +8,7 @@ pub mod genfront;
 pub mod harness;
 pub mod layout;
 pub mod print;
+pub mod proto;
 pub mod refcodec;
 pub mod refper;
 pub mod schema;
